@@ -75,6 +75,32 @@ impl<'a> Iterator for Rewinding<'a> {
     }
 }
 
+/// A fused, cloneable iterator whose `next()` itself parses another number when it reaches position `fire_at`: a nested
+/// (re-entrant) call of the parser on the same thread while the outer call is in progress.
+#[derive(Clone)]
+struct Reentrant<'a> {
+    data: &'a [u8],
+    pos: usize,
+    fire_at: usize,
+    inner: &'a Case,
+    inner_fmt: Fmt,
+}
+impl<'a> Iterator for Reentrant<'a> {
+    type Item = &'a u8;
+    fn next(&mut self) -> Option<&'a u8> {
+        if self.pos == self.fire_at {
+            std::hint::black_box(parse_iters(self.inner_fmt, self.inner.int.iter(), self.inner.frac.iter(), self.inner.exp));
+        }
+        if self.pos < self.data.len() {
+            self.pos += 1;
+            Some(&self.data[self.pos - 1])
+        } else {
+            self.pos = self.data.len() + 1;
+            None
+        }
+    }
+}
+
 fn chunked(rng: &Rng, b: &[u8]) -> Vec<Vec<u8>> {
     let mut out = Vec::new();
     let mut i = 0;
@@ -146,7 +172,9 @@ fn next_case(rng: &Rng, fmt: Fmt, lean: bool) -> Case {
 
 fn c15_one(ctx: &mut Ctx, rng: &Rng, fmt: Fmt, c: &Case) {
     // several iterator shapes; everything is built before the monitor is armed
-    let shape = rng.below(4);
+    let shape = rng.below(5);
+    // for the re-entrant shape: an inner slow-path-prone input, built before the monitor is armed
+    let inner = if shape == 4 { Some(next_case(rng, if rng.chance(1, 2) { F64 } else { F32 }, true)) } else { None };
     let ci = chunked(rng, &c.int);
     let cf = chunked(rng, &c.frac);
     let dq: VecDeque<u8> = c.frac.iter().copied().collect();
@@ -155,6 +183,17 @@ fn c15_one(ctx: &mut Ctx, rng: &Rng, fmt: Fmt, c: &Case) {
         0 => alloc_mon::watch(|| util::catch(|| parse_iters(fmt, c.int.iter(), c.frac.iter(), c.exp))),
         1 => alloc_mon::watch(|| util::catch(|| parse_iters(fmt, Chunky { chunks: &ci, ci: 0, bi: 0 }, Chunky { chunks: &cf, ci: 0, bi: 0 }, c.exp))),
         2 => alloc_mon::watch(|| util::catch(|| parse_iters(fmt, c.int.iter(), dq.iter(), c.exp))),
+        4 => {
+            // nested call: the digit iterators themselves parse another number half-way through (and at their end)
+            let inn = inner.as_ref().unwrap();
+            let ifmt = if inn.tag.len() % 2 == 0 { F64 } else { F32 };
+            let (fi, ff) = (c.int.len() / 2, c.frac.len());
+            alloc_mon::watch(|| {
+                util::catch(|| {
+                    parse_iters(fmt, Reentrant { data: &c.int, pos: 0, fire_at: fi, inner: inn, inner_fmt: ifmt }, Reentrant { data: &c.frac, pos: 0, fire_at: ff, inner: inn, inner_fmt: ifmt }, c.exp)
+                })
+            })
+        }
         _ => {
             let (a, b) = c.int.split_at(c.int.len() / 2);
             alloc_mon::watch(|| util::catch(|| parse_iters(fmt, a.iter().chain(b.iter()), c.frac.iter().filter(|_| true), c.exp)))
@@ -224,7 +263,7 @@ fn mode_c15(ctx: &mut Ctx, rng: &Rng) {
         let c = next_case(rng, fmt, false);
         c15_one(ctx, rng, fmt, &c);
     }
-    for k in ["path.fast", "path.moderate", "path.slow_pos", "path.slow_neg", "path.sticky_digit", "digits.ge10k", "shape.0", "shape.1", "shape.2", "shape.3"] {
+    for k in ["path.fast", "path.moderate", "path.slow_pos", "path.slow_neg", "path.sticky_digit", "digits.ge10k", "shape.0", "shape.1", "shape.2", "shape.3", "shape.4"] {
         ctx.rep.require(k);
     }
     if !cfg!(feature = "compact") {
@@ -307,7 +346,7 @@ fn c16_shapes(ctx: &mut Ctx, rng: &Rng, fmt: Fmt, c: &Case, lean: bool) -> u64 {
     };
     let (int, frac, e) = (&c.int[..], &c.frac[..], c.exp);
     // (a) iterator shapes
-    let all: Vec<u64> = if lean { vec![rng.below(12)] } else { (0..12).collect() };
+    let all: Vec<u64> = if lean { vec![rng.below(13)] } else { (0..13).collect() };
     for shape in all {
         sink::reset();
         match shape {
@@ -459,6 +498,16 @@ fn c16_shapes(ctx: &mut Ctx, rng: &Rng, fmt: Fmt, c: &Case, lean: bool) -> u64 {
                     check(ctx, "shared_addresses_repeat_zero", r, Some(sink::path()));
                     ctx.rep.add("shared_addresses.zero_items", (tz + lz) as u64);
                 }
+            }
+            12 => {
+                // re-entrancy: the digit iterators parse another (sibling-like) number while the outer call is in progress
+                let inn = next_case(rng, if rng.chance(1, 2) { F64 } else { F32 }, true);
+                let ifmt = if rng.chance(1, 2) { F64 } else { F32 };
+                let (fi, ff) = (rng.below(int.len() as u64 + 1) as usize, rng.below(frac.len() as u64 + 1) as usize);
+                let r = util::catch(|| {
+                    parse_iters(fmt, Reentrant { data: int, pos: 0, fire_at: fi, inner: &inn, inner_fmt: ifmt }, Reentrant { data: frac, pos: 0, fire_at: ff, inner: &inn, inner_fmt: ifmt }, e)
+                });
+                check(ctx, "reentrant_nested_parse", r, None);
             }
             8 => {
                 // chains whose size_hint has a non-zero but inexact lower bound: an exact piece (slice) chained
